@@ -155,10 +155,6 @@ const XalanHTMLElementsProperties::InternalElementProperties    XalanHTMLElement
                 { XalanUnicode::charLetter_H, XalanUnicode::charLetter_R, XalanUnicode::charLetter_E, XalanUnicode::charLetter_F, 0 },
                 ElemDesc::ATTRURL,
             },
-            {
-                { XalanUnicode::charLetter_N, XalanUnicode::charLetter_A, XalanUnicode::charLetter_M, XalanUnicode::charLetter_E, 0 },
-                ElemDesc::ATTRURL,
-            },
             // This is a dummy entry and it must be the last one!!! Each array of
             // InternalAttributesProperties must be terminated by a dummy entry.
             {
